@@ -688,8 +688,11 @@ class FxCtx(Ctx):
                 return None
             return f
         for fn, nm in ((shutil.copy, "shutil.copy"), (shutil.copymode, "shutil.copymode"), (shutil.copy2, "shutil.copy2"), (os.remove, "os.remove"),
-                       (os.symlink, "os.symlink"), (os.chown, "os.chown")):
-            self.externals[fn] = rec(nm)
+                       (os.symlink, "os.symlink"), (os.chown, "os.chown"), (os.unlink, "os.unlink"), (os.rmdir, "os.rmdir"), (os.rename, "os.rename"),
+                       (os.replace, "os.replace"), (os.makedirs, "os.makedirs"), (os.mkdir, "os.mkdir"), (shutil.rmtree, "shutil.rmtree"), (shutil.move, "shutil.move")):
+            self.externals[fn] = rec(nm)        # every mutating call of os / shutil is an effect, whichever one the code picks
+        for fn in (os.path.lexists, os.path.exists, os.path.isdir):
+            self.externals[fn] = lambda interp, p, fn=fn: SBool(z3.Bool(interp.ex.fresh_name(fn.__name__)))
         self.externals[shutil.copytree] = self.x_copytree
         self.externals[os.path.islink] = lambda interp, p: SBool(z3.Bool("src_is_link"))
         self.externals[os.path.isfile] = lambda interp, p: SBool(z3.Bool(interp.ex.fresh_name("isfile")))
